@@ -15,5 +15,6 @@ INVARIANT Completeness
 INVARIANT ViewUnique
 INVARIANT FlagDiscipline
 INVARIANT CopyNumbersDense
+INVARIANT ProgressTotalCovers
 PROPERTY RejectedIsNoOp
 CHECK_DEADLOCK FALSE
